@@ -251,6 +251,24 @@ def case_model(col, p):
                 ok, err = close(a, b, 1e-12)
                 if not ok:
                     col.violation('C15:%s:equal_rates_vs_%s' % (name, sym), dict(info0, params=qa), {'relerr': err})
+    # (3b) a pre-split epoch at the reference size (nuPre = 1) keeps the ancestral population at its equilibrium - with selection too: the
+    #      model must then agree with TPre = 0 up to a grid error that contracts under grid refinement
+    if 'nuPre' in names and 'TPre' in names:
+        for v in (0, 1):
+            q = dict(zip(names, default_params(names, v)))
+            q['nuPre'] = 1.0
+            q0 = dict(q)
+            q0['TPre'] = 0.0
+            errs = []
+            for pts in ({2: (16, 32, 64)}.get(d, (30, 60, 120))):
+                a, b = arr(call(f, names, q, d, pts=pts)), arr(call(f, names, q0, d, pts=pts))
+                col.tick(transitions=2)
+                mk = inner_mask(a.shape)
+                errs.append(float(np.abs(a - b)[mk].max() / np.abs(b[mk]).max()))
+            if not ((errs[2] <= 0.6 * errs[0] and errs[2] <= 0.05) or errs[2] < 1e-4):
+                col.violation('C15:%s:pre_epoch_at_reference_size_changes_the_model' % name, dict(info0, params=q), {'relerr_by_grid': errs})
+            else:
+                col.observe('pre_epoch_persistence', errs[2] / 0.05)
     # (4) label-swap equivariance on a time-step ladder
     swapmap = swap_rule(names, d)
     if 'f' in names or 'admix_origin' in name:
